@@ -144,7 +144,7 @@ class Repo:
             yield from mi.funcs.values()
 
     def loc(self, rel: str, node: ast.AST) -> str:
-        return f"{rel}:{getattr(node, 'lineno', 0)}"
+        return f"{rel}:{getattr(node, 'src_lineno', getattr(node, 'lineno', 0))}"
 
 
 def _index_module(mi: ModuleInfo) -> None:
